@@ -141,6 +141,8 @@ def scan (lossy : Bool) : Nat → Buf → Nat → Nat → Res
 
 /-- `parse_string_inplace(&mut src, repr)`: `i` = just behind the opening quote -/
 def run (lossy : Bool) (mem : Buf) (i : Nat) : Res := scan lossy (3 * mem.size + 8) mem i i
+-- (theorems speak about `run` as a whole: the elaborator must not unfold thousands of loop iterations to look at its result)
+attribute [irreducible] run
 
 /-- the padding `parse_with_padding` puts behind the text: `x"x` and 61 zero bytes -/
 def pad (t : Buf) : Buf := t ++ (#[120, 34, 120] ++ Array.replicate 61 (0 : UInt8))
